@@ -76,6 +76,27 @@ func main() {
 				os.Exit(3)
 			}
 		}
+		// installed under a name that starts with "convoddtime" the converter answers the first request for every stream
+		// with a chunk whose time the service cannot read, followed by more chunk lines than any stream of the harness
+		// has packets; it then goes on as if nothing had happened (the service has to stop this process - whatever
+		// it has not read of this answer must not be taken for the answer to the next request)
+		if base := filepath.Base(os.Args[0]); strings.HasPrefix(base, "convoddtime") {
+			var m struct{ StreamID uint64 }
+			json.Unmarshal([]byte(meta), &m)
+			marker := filepath.Join(filepath.Dir(filepath.Dir(os.Args[0])), fmt.Sprintf("%s-oddtime-on-%d", base, m.StreamID))
+			if _, err := os.Stat(marker); err != nil {
+				os.WriteFile(marker, nil, 0o644)
+				out.WriteString("{\"Direction\":\"client-to-server\",\"Content\":\"b2Rk\",\"Time\":\"2020-01-01T12:00:01.5+00:00\"}\n")
+				for i := 0; i < 12; i++ {
+					out.WriteString("{\"Direction\":\"client-to-server\",\"Content\":\"bGVmdG92ZXI=\",\"Time\":\"2020-01-01T00:00:00\"}\n")
+				}
+				out.WriteString("\n")
+				out.WriteString(strings.TrimRight(meta, "\n"))
+				out.WriteByte('\n')
+				out.Flush()
+				continue
+			}
+		}
 		// failure modes for the race pass: the process dies / breaks the protocol on a stream whose
 		// upper-cased client payload contains the given text
 		if v := os.Getenv("VCONV_DIE_ON"); v != "" && strings.Contains(strings.ToUpper(string(c)), v) {
@@ -93,6 +114,13 @@ func main() {
 		// the race pass wants the service's stderr reader goroutine to be busy
 		if os.Getenv("VCONV_STDERR") != "" {
 			fmt.Fprintf(os.Stderr, "converted %s", meta)
+		}
+		// ... and with "loud" to have produced far more than any line buffer holds (150 lines of 800 bytes per
+		// stream, one write each), so that lines the service keeps are older than what its reader's buffer holds now
+		if os.Getenv("VCONV_STDERR") == "loud" {
+			for i := 0; i < 150; i++ {
+				fmt.Fprintf(os.Stderr, "debug %04d %s\n", i, strings.Repeat("x", 780))
+			}
 		}
 		// the executable can be "replaced by another one": a generation number next to the converter directory is
 		// part of what it outputs (read per stream, the harness writes the file when it replaces the executable)
